@@ -9,6 +9,7 @@ h5py on the closed file.
 """
 import hashlib
 import itertools
+import os
 
 import h5py
 import numpy as np
@@ -655,6 +656,75 @@ def _comp_case(args):
     return len(hist), crosses, viols
 
 
+def _dtype_replace_case(args):
+    """A finished file whose scalar features were recorded in a narrower
+    type (float32 / int32 data written first) is re-opened in replace or
+    reset mode and the features are written again as float64 / int64 with
+    values the narrow type cannot hold: the new values are read back
+    exactly, for every pair of old and new event counts 1..3 x 1..3."""
+    scratch, = args
+    import dclab
+    from dclab.rtdc_dataset.writer import RTDCWriter
+    W_ = "dclab.rtdc_dataset.writer:RTDCWriter.store_feature"
+    out = []
+    cnt = 0
+    path = scratch / f"c01_dtype_{os.getpid()}.rtdc"
+    wide = {"deform": np.array([1e-300, 0.1, 1.7e300]),
+            "area_um": np.array([1 / 3, 16777217.0, 2.5e-50]),
+            "frame": np.array([2 ** 40 + 1, 3, 2 ** 33], dtype=np.int64)}
+    narrow = {"deform": np.array([0.5, 0.25, 0.125, 0.75], np.float32),
+              "area_um": np.array([1.5, 2.5, 3.5, 4.5], np.float32),
+              "frame": np.array([1, 2, 3, 4], np.int32)}
+    for mode in ("replace", "reset"):
+        for n_old in (1, 2, 4):
+            for n_new in (1, 2, 3):
+                cnt += 1
+                case = {"kind": "dtype-replace", "mode": mode,
+                        "n_old": n_old, "n_new": n_new}
+                try:
+                    with RTDCWriter(path, mode="reset") as hw:
+                        hw.store_metadata(gen.complete_meta(n_old, fl=False))
+                        for f, a in narrow.items():
+                            hw.store_feature(f, a[:n_old])
+                    with RTDCWriter(path, mode=mode) as hw:
+                        if mode == "reset":
+                            hw.store_metadata(gen.complete_meta(n_new,
+                                                                fl=False))
+                        for f, a in wide.items():
+                            hw.store_feature(f, a[:n_new])
+                    with dclab.new_dataset(path) as ds:
+                        for f, a in wide.items():
+                            got = np.asarray(ds[f][:])
+                            want = a[:n_new]
+                            if len(got) != n_new or not np.array_equal(
+                                    got.astype(np.float64)
+                                    if f != "frame" else got.astype(np.int64),
+                                    want):
+                                out.append(violation(
+                                    W_, "wrong-data-dclab", case,
+                                    f"{f} written as {a.dtype} in {mode} "
+                                    f"mode over a {narrow[f].dtype} "
+                                    f"recording: read {got.tolist()} "
+                                    f"({got.dtype}), written "
+                                    f"{want.tolist()}",
+                                    {"feat": f, "mode": mode,
+                                     "history": "narrower-dtype-first"}))
+                        if len(ds) != n_new:
+                            out.append(violation(
+                                W_, "wrong-length", case,
+                                f"{len(ds)} events, {n_new} written",
+                                {"mode": mode,
+                                 "history": "narrower-dtype-first"}))
+                except Exception as e:
+                    out.append(violation(
+                        W_, "exception", case, f"{type(e).__name__}: {e}",
+                        {"exc": type(e).__name__, "mode": mode,
+                         "history": "narrower-dtype-first"}))
+    if path.exists():
+        path.unlink()
+    return cnt, out
+
+
 def run(ctx):
     scratch = ctx.scratch
     viols = []
@@ -668,6 +738,9 @@ def run(ctx):
         parts.append((f"{mode0}-{'tiny' if tiny else '1MiB'}", stats))
         viols.extend(vs)
     cov = explore.merge_stats(parts)
+    dcnt, dvs = par.pmap(_dtype_replace_case, [(scratch,)])[0]
+    viols.extend(dvs)
+    cov["dtype_replace_cases"] = dcnt
     # compositions
     items = []
     for comp in comp_histories(ctx):
@@ -724,6 +797,9 @@ def run(ctx):
 
 
 def replay(case, ctx):
+    if case.get("kind") == "dtype-replace":
+        return [v for v in _dtype_replace_case((ctx.scratch,))[1]
+                if v["case"] == case]
     if case.get("kind") == "big":
         from .. import big
         return big.violations("C01", ctx.scratch)
